@@ -7,6 +7,7 @@ enumeration, re-executable against the real code with `xrun <suite> --only <case
 def search(prop, label, errs, scratch):
     for e, backend in errs:
         if e.get('witness'):
-            src = 'xrun case (real code executed on this input)' if backend == 'xrun' else 'kani concrete playback'
+            w0 = e['witness'][0] if isinstance(e['witness'], list) and e['witness'] else {}
+            src = 'xrun case (real code executed on this input)' if (backend == 'xrun' or (isinstance(w0, dict) and 'suite' in w0) or (isinstance(w0, dict) and 'probe' in w0)) else 'kani concrete playback'
             return {'source': src, 'values': e['witness'], 'confirmed': True}
     return None
